@@ -35,6 +35,8 @@ const (
 	OGarbageHdr  = "garbage-header" // not an LTX header at all
 	OOverlap     = "overlap-range"  // a compacted range [t-d+1, t+1] with pre-apply checksum c: ends right, starts inside the log
 	OGoodRange   = "good-range"     // a compacted range [t+1, t+1+d] extending (t, c) exactly: must be accepted
+	OCutSnapshot = "cut-snapshot"   // a snapshot file (MinTXID 1, which may replace anything) that ends early
+	OBadSnapshot = "bad-snapshot"   // a snapshot file with one byte of its page block flipped
 )
 
 type Offer struct {
@@ -70,7 +72,7 @@ func genRejectPlan(t *rapid.T) RejectPlan {
 	for i := 0; i < ns; i++ {
 		p.Setup = append(p.Setup, mk(txs[i]))
 	}
-	kinds := []string{OGood, OGoodRange, OOverlap, OOverlap, OGap, OGap, ORepeat, ORepeat, OPreChecksum, OPreChecksum, OBothWrong, OCorruptPage, OCorruptPage, OCorruptTail, OTruncated, OGarbageHdr}
+	kinds := []string{OGood, OGoodRange, OOverlap, OOverlap, OCutSnapshot, OCutSnapshot, OBadSnapshot, OGap, OGap, ORepeat, ORepeat, OPreChecksum, OPreChecksum, OBothWrong, OCorruptPage, OCorruptPage, OCorruptTail, OTruncated, OGarbageHdr}
 	for i := 0; i < no; i++ {
 		p.Offers = append(p.Offers, Offer{
 			Route:  rapid.SampledFrom([]string{"stream", "tx"}).Draw(t, "route"),
@@ -101,6 +103,8 @@ func buildOffer(o Offer, img *ref.Image, pos ref.Pos, foreign uint64) (file []by
 		}
 	case OGoodRange:
 		maxTXID = pos.TXID + 1 + uint64(o.D)
+	case OCutSnapshot, OBadSnapshot:
+		minTXID, maxTXID, pre = 1, pos.TXID+1, 0
 	case OGap:
 		minTXID = pos.TXID + 1 + uint64(o.D)
 	case ORepeat:
@@ -123,7 +127,14 @@ func buildOffer(o Offer, img *ref.Image, pos ref.Pos, foreign uint64) (file []by
 	next.Set(1, hdr)
 	pgnos := []uint32{1}
 	lock := ref.LockPgno(img.PageSize)
-	for k := 1; k < o.Pages; k++ {
+	if minTXID == 1 { // a snapshot carries every page
+		for pg := uint32(2); pg <= img.N(); pg++ {
+			if pg != lock {
+				pgnos = append(pgnos, pg)
+			}
+		}
+	}
+	for k := 1; k < o.Pages && minTXID != 1; k++ {
 		pg := uint32(1 + k)
 		if pg > img.N() || pg == lock {
 			break
@@ -148,6 +159,10 @@ func buildOffer(o Offer, img *ref.Image, pos ref.Pos, foreign uint64) (file []by
 	file = buf.Bytes()
 	body := len(file) - ltx.HeaderSize - ltx.TrailerSize
 	switch o.Kind {
+	case OCutSnapshot:
+		file = file[:ltx.HeaderSize+o.At%(body+ltx.TrailerSize)]
+	case OBadSnapshot:
+		file[ltx.HeaderSize+ltx.PageHeaderSize+o.At%(int(img.PageSize))] ^= 0x01
 	case OCorruptPage:
 		// a byte of page data (past the 4-byte page header of the first page)
 		i := ltx.HeaderSize + ltx.PageHeaderSize + o.At%(int(img.PageSize))
